@@ -716,6 +716,27 @@ def op_iterate_with_delete(st, op):
     return {"ids": ids, "deleted": deleted}
 
 
+def _query_kw(kw):
+    kw = dict(kw or {})
+    for k in ("featuretype", "order_by", "limit", "region"):
+        if isinstance(kw.get(k), list):
+            kw[k] = tuple(kw[k])
+    return kw
+
+
+def op_deferred_read(st, op):
+    """A query result is obtained but not read; the caller deletes features through the same handle; only then is the
+    result read.  Also answers the same query in full before the result is obtained and after it was read."""
+    db = st.h[op["h"]]
+    q = lambda: getattr(db, op["m"])(*op.get("args", []), **_query_kw(op.get("kw")))
+    before = [f.id for f in q()]
+    pending = q()
+    db.delete(list(op["ids"]), make_backup=False)
+    got = [f.id for f in pending]
+    after = [f.id for f in q()]
+    return {"before": before, "got": got, "after": after}
+
+
 def op_merge_interleave(st, op):
     """Several merge() generators alive on one handle, advanced alternately."""
     db = st.h[op["h"]]
@@ -940,6 +961,7 @@ OPS = {
     "update_merged": op_update_merged,
     "merge_interleave": op_merge_interleave,
     "iterate_with_delete": op_iterate_with_delete,
+    "deferred_read": op_deferred_read,
     "dataiter": op_dataiter,
     "inspect": op_inspect,
     "dataiter_pair": op_dataiter_pair,
